@@ -31,7 +31,10 @@ def run(ctx):
     ctx.rule('C09.NONE', lambda: rule_none(ctx), 5)
     ctx.rule('C09.COLLISION', lambda: c01.rule_collision(ctx, 'C09.COLLISION'), 2)
     ctx.rule('C09.PAIRS', lambda: c08.rule_add(ctx) + c08.rule_remove(ctx), 8)
+    from .unbound import rule_unbound
+    ctx.rule('C09.UNBOUND', lambda: rule_unbound(ctx, 'C09.UNBOUND', ('mp',)), 20)
     ctx.rule('C09.LOOPONLY', lambda: rule_looponly(ctx), 2)
+    ctx.rule('C09.HANDOVER', lambda: rule_refresh_handover(ctx), 3)
     ctx.rule('C09.ITER', lambda: rule_iter(ctx), 3)
     # "reaches the exact view of C08": the clauses of the view that do not depend on the refresh being quiet
     ctx.rule('C09.VIEW', lambda: c08.rule_liveflag(ctx) + c08.rule_sign(ctx) + c08.rule_fee(ctx), 4)
@@ -400,4 +403,68 @@ def rule_none(ctx):
         ok = bool(uses) and all(guarded(ctx, sp, u, var) for u in uses)
     ctx.check(ok, 'C09.NONE', ctx.key(sp, None, 'u row tested'), 'the u-row value is tested before it is concatenated into the spent value',
               'the u-row value is used without a None test', loc=ctx.loc(sp, sp.node))
+    return n + 1
+
+
+def rule_refresh_handover(ctx, rule='C09.HANDOVER'):
+    '''MemPool._refresh_hashes reports to the notifications exactly what the property assumes of the mempool source:
+    (i) the listing it processes is bracketed by two equal readings of the daemon height - the first one taken BEFORE the
+    listing is requested - so the height it reports is the height the listing belongs to; (ii) every completed refresh is
+    reported, unconditionally, with the touched set accumulated since the last report and that height.'''
+    g = ctx.func('mp', 'MemPool._refresh_hashes')
+    cfg = ctx.cfg(g)
+    n = 0
+    lists = [c for c in q.own_calls(g) if q.callee_name(ctx, g, c) == 'self.api.mempool_hashes']
+    om = [c for c in q.own_calls(g) if q.callee_name(ctx, g, c) == 'self.api.on_mempool']
+    pm = [c for c in q.own_calls(g) if q.callee_name(ctx, g, c) == 'self._process_mempool']
+    if len(lists) != 1 or len(om) != 1 or len(pm) != 1 or len(om[0].args) != 2 or not isinstance(om[0].args[1], ast.Name):
+        raise AnalysisError(f'{g.key}: listing / processing / on_mempool(touched, height) calls not recognised')
+    hv = om[0].args[1].id
+    tv = norm(om[0].args[0])
+    hdefs = [s for s in q.assigns(ctx, g, hv)]
+    ln = cfg.node(q.stmt(lists[0]))
+    ok = len(hdefs) == 1 and isinstance(hdefs[0], ast.Assign) and isinstance(hdefs[0].value, ast.Call) \
+        and q.callee_name(ctx, g, hdefs[0].value) in ('self.api.cached_height', 'self.api.height') or \
+        (len(hdefs) == 1 and isinstance(hdefs[0].value, ast.Await))
+    why = f'`{hv}` is not a single reading of the daemon height'
+    if ok:
+        hn = cfg.node(hdefs[0])
+        # within one iteration: reading -> listing (never listing -> reading -> use)
+        ok = cfg.dominates(hn, ln) and cfg.find_path([ln], {hn}, avoiding={cfg.node(q.stmt(pm[0]))} |
+                                                     {cfg.node(s) for s in g.node.body if isinstance(s, ast.While)}) is None
+        why = f'the height `{hv}` is read after the listing was requested: a block that arrives while the listing is in flight makes ' \
+              'the old listing pass for the new height'
+    if ok:
+        # the second reading guards the processing
+        chk = [s for s in g.own_nodes() if isinstance(s, ast.If) and isinstance(s.test, ast.Compare) and len(s.test.ops) == 1
+               and isinstance(s.test.ops[0], ast.NotEq) and hv in {norm(s.test.left), norm(s.test.comparators[0])}
+               and 'self.api.height()' in norm(s.test) and len(s.body) == 1 and isinstance(s.body[0], ast.Continue)]
+        ok = len(chk) == 1 and cfg.dominates(ln, cfg.node(chk[0])) and cfg.dominates(cfg.node(chk[0]), cfg.node(q.stmt(pm[0])))
+        why = 'the listing is processed without re-reading the daemon height and retrying when it moved'
+    ctx.check(ok, rule, ctx.key(g, q.stmt(lists[0]), 'listing bracketed by equal heights'),
+              'the listing is requested between two readings of the daemon height and processed only when they agree',
+              why, loc=ctx.loc(g, lists[0]))
+    n += 1
+    # the height handed to _process_mempool and to on_mempool is that reading
+    okp = len(pm[0].args) == 3 and norm(pm[0].args[2]) == hv and norm(pm[0].args[1]) == tv
+    ctx.check(okp, rule, ctx.key(g, q.stmt(pm[0]), 'same height processed and reported'),
+              'the refresh is processed at, and reported for, the bracketed height with the accumulating touched set',
+              f'the refresh is processed with `{", ".join(norm(a) for a in pm[0].args)}` but reported with `{tv}, {hv}`', loc=ctx.loc(g, pm[0]))
+    n += 1
+    # (ii) unconditional hand-over after a completed refresh
+    trs = [s for s in g.own_nodes() if isinstance(s, ast.Try) and q.in_body(pm[0], s.body)]
+    oks, whys = False, 'on_mempool is not called from the else-branch of the try around _process_mempool'
+    if len(trs) == 1 and q.in_body(om[0], trs[0].orelse):
+        conds = [(norm(t), b) for t, b, _p in pr.control_conditions(q.stmt(om[0]), trs[0])]
+        oks = not conds
+        whys = f'the report is skipped unless {conds}: an (empty) refresh at a height that was already reported is how the join ' \
+               'learns that the mempool has caught up with a repeated / re-organised block at that height'
+        if oks:
+            resets = [s for s in trs[0].orelse if isinstance(s, ast.Assign) and norm(s.targets[0]) == tv and norm(s.value) == 'set()'
+                      and s.lineno > q.stmt(om[0]).lineno]
+            oks = len(resets) == 1
+            whys = f'`{tv}` is not re-bound to a fresh set after the hand-over (ownership passes to the notifications)'
+    ctx.check(oks, rule, ctx.key(g, q.stmt(om[0]), 'every completed refresh reported'),
+              'every completed refresh is reported to on_mempool, unconditionally, and the touched set starts afresh', whys,
+              loc=ctx.loc(g, om[0]))
     return n + 1
